@@ -14,6 +14,37 @@ use std::panic::{catch_unwind, AssertUnwindSafe};
 
 pub type Cache = LruCache<TKey, TVal, HB>;
 
+/// One call on an iterator (the letters of the specification's iterator words).
+#[derive(Clone, Copy, Debug, PartialEq, Eq)]
+pub enum Letter {
+    Next,
+    NextBack,
+    Nth(usize),
+    NthBack(usize)
+}
+
+impl Letter {
+    pub fn parse(s: &str) -> Letter {
+        match s {
+            "n" => Letter::Next,
+            "b" => Letter::NextBack,
+            _ => {
+                let j = s[1..].parse::<usize>().unwrap_or(0);
+                if s.starts_with('s') { Letter::Nth(j) } else { Letter::NthBack(j) }
+            }
+        }
+    }
+
+    pub fn step<I: DoubleEndedIterator>(&self, it: &mut I) -> Option<I::Item> {
+        match *self {
+            Letter::Next => it.next(),
+            Letter::NextBack => it.next_back(),
+            Letter::Nth(j) => it.nth(j),
+            Letter::NthBack(j) => it.nth_back(j)
+        }
+    }
+}
+
 #[derive(Clone, Copy, Debug, PartialEq, Eq)]
 pub enum KeyForm {
     Owned,
@@ -361,8 +392,8 @@ impl Session {
         let keep: HashSet<u32> = a["keep"].as_array()
             .map(|v| v.iter().map(|x| x.as_u64().unwrap_or(0) as u32).collect())
             .unwrap_or_default();
-        let word: Vec<bool> = a["w"].as_array()
-            .map(|v| v.iter().map(|x| x.as_str() == Some("n")).collect())
+        let word: Vec<Letter> = a["w"].as_array()
+            .map(|v| v.iter().map(|x| Letter::parse(x.as_str().unwrap_or("n"))).collect())
             .unwrap_or_default();
         let crash = &op["crash"];
         let crash_kind = crash["kind"].as_str().unwrap_or("").to_string();
@@ -434,8 +465,8 @@ impl Session {
                     macro_rules! run_owning {
                         ($it:expr, $conv:expr) => {{
                             let mut it = $it;
-                            for front in word.iter() {
-                                let item = if *front { it.next() } else { it.next_back() };
+                            for letter in word.iter() {
+                                let item = letter.step(&mut it);
                                 match item {
                                     Some(x) => {
                                         let (kt, vt): (u64, u64) = $conv(&x);
@@ -735,8 +766,8 @@ impl Session {
                         macro_rules! run_iter {
                             ($it:expr, $conv:expr, $own:expr) => {{
                                 let mut it = $it;
-                                for front in word.iter() {
-                                    let item = if *front { it.next() } else { it.next_back() };
+                                for letter in word.iter() {
+                                    let item = letter.step(&mut it);
                                     match item {
                                         Some(x) => {
                                             let (kt, vt): (u64, u64) = $conv(&x);
@@ -753,8 +784,8 @@ impl Session {
                         match name.as_str() {
                             "iter" => {
                                 let mut it = cache.iter();
-                                for front in word.iter() {
-                                    let item = if *front { it.next() } else { it.next_back() };
+                                for letter in word.iter() {
+                                    let item = letter.step(&mut it);
                                     match item {
                                         Some((kk, v)) => seq.push((kk.tok, v.tok)),
                                         None => seq.push((0, 0))
@@ -764,8 +795,8 @@ impl Session {
                             },
                             "keys" => {
                                 let mut it = cache.keys();
-                                for front in word.iter() {
-                                    let item = if *front { it.next() } else { it.next_back() };
+                                for letter in word.iter() {
+                                    let item = letter.step(&mut it);
                                     match item {
                                         Some(kk) => seq.push((kk.tok, 0)),
                                         None => seq.push((0, 0))
@@ -775,8 +806,8 @@ impl Session {
                             },
                             "values" => {
                                 let mut it = cache.values();
-                                for front in word.iter() {
-                                    let item = if *front { it.next() } else { it.next_back() };
+                                for letter in word.iter() {
+                                    let item = letter.step(&mut it);
                                     match item {
                                         Some(v) => seq.push((0, v.tok)),
                                         None => seq.push((0, 0))
